@@ -6,7 +6,13 @@ to rebuild from `e`.  `u` says whether an enclosing List prunes (`prune_empty = 
 case pairs with an empty value never reach the element:
 
 * scalars keep their state (a dropped empty pair leaves the fresh scalar, which *is* the empty
-  scalar); a JoinedString whose text is dropped comes back fresh;
+  scalar);
+* a JoinedString flattens to one pair, its text (its members are never flattened), and `from_flat`
+  runs `set(text)` on that pair: it comes back with its text and the members that text splits into
+  (`joinedMembers`).  For a settled JoinedString that is its own state.  A fresh, never-set one has
+  the empty text and no members; if its kind splits the empty text into one empty member
+  (`prune_empty = False`: `''.split(sep) == ['']`) it comes back with that member — the tree
+  changes, the flat output does not.  A JoinedString whose text is dropped comes back fresh;
 * mappings prune field by field;
 * a pruning List keeps exactly the members that still emit a pair (all of whose flattened values are
   not empty), in order, renumbered;
@@ -37,7 +43,8 @@ def arrayPrunes (nm : Option Str) (prune : Bool) (member : Schema) : Bool :=
 mutual
 def pr (env : Env) : Bool → Schema → Elem → Elem
   | _, .leaf .., e => e
-  | u, .joined .., .joined t ms => if u && t.isEmpty then .joined [] [] else .joined t ms
+  | u, .joined _ _ k _, .joined t _ =>
+    if u && t.isEmpty then .joined [] [] else .joined t ((env.joinedMembers k t).map Elem.leaf)
   | u, .dict _ _ _ fields, .dict ms => .dict (prFields env u fields ms)
   | u, .compound _ _ _ fields, .dict ms => .dict (prFields env u fields ms)
   | u, .list _ _ prune _ member, .list ms =>
@@ -56,11 +63,14 @@ end
 
 mutual
 /-- conforming, settled element of a schema without SparseDicts — no restriction on pruning or on
-    members without a flat representation -/
+    members without a flat representation.  A JoinedString is settled (its members are those its
+    text splits into — whatever the kind makes of the empty text, so `prune_empty = False` is
+    covered) or fresh (never set: empty text, no members; `from_flat` leaves it so when it sees no
+    pair for it). -/
 def OkP (env : Env) : Schema → Elem → Prop
   | .leaf _ _ k, .leaf u => env.norm k u = u
-  | .joined _ _ k _, .joined u ms => env.norm k u = u ∧ ms = (env.joinedMembers k u).map Elem.leaf ∧
-      env.norm k [] = [] ∧ env.joinedMembers k [] = []
+  | .joined _ _ k _, .joined u ms => env.norm k u = u ∧
+      (ms = (env.joinedMembers k u).map Elem.leaf ∨ (u = [] ∧ ms = []))
   | .dict _ _ mode fields, .dict ms => mode = .dense ∧ OkPFields env fields ms
   | .compound _ _ _ fields, .dict ms => OkPFields env fields ms
   | .list _ _ _ mx member, .list ms =>
